@@ -263,16 +263,18 @@ pub fn check_order(c: &OrderCase) -> CheckResult {
 }
 
 fn order_strategy(max_lane: usize, with_n32: bool) -> impl Strategy<Value = OrderCase> {
-    order_strategy_with((1usize..max_lane).boxed(), with_n32)
+    order_strategy_with((1usize..max_lane).boxed(), with_n32, 14, false)
 }
 
-fn order_strategy_with(len: BoxedStrategy<usize>, with_n32: bool) -> impl Strategy<Value = OrderCase> {
+/// `qmax`: request lists of 1..qmax quantiles; `arrange`: half of the lanes are put in decreasing
+/// order or get their maximum moved to the front.
+fn order_strategy_with(len: BoxedStrategy<usize>, with_n32: bool, qmax: usize, arrange: bool) -> impl Strategy<Value = OrderCase> {
     (ty_strategy(with_n32), len)
-        .prop_flat_map(|(ty, n)| {
+        .prop_flat_map(move |(ty, n)| {
             (
                 Just(ty),
                 ord_values(ty, n..n + 1, true),
-                proptest::collection::vec(qspec_strategy(), 1..14),
+                proptest::collection::vec(qspec_strategy(), if qmax > 14 { 64..qmax } else { 1..qmax }),
                 layout_strategy(1),
                 proptest::collection::vec(any::<u16>(), n),
                 proptest::collection::vec(1u8..40, 0..6),
@@ -281,7 +283,19 @@ fn order_strategy_with(len: BoxedStrategy<usize>, with_n32: bool) -> impl Strate
                 proptest::collection::vec(pivots_strategy(), 1..4),
             )
         })
-        .prop_map(|(ty, mut data, qs, layout, perm_keys, relabel_inc, relabel_base, use_bulk, pivots)| {
+        .prop_map(move |(ty, mut data, qs, layout, perm_keys, relabel_inc, relabel_base, use_bulk, pivots)| {
+            let use_bulk = use_bulk || qmax > 14;
+            if arrange && data.len() >= 2 {
+                let key = |v: i128| Val::of(ty, v);
+                match perm_keys.last().map(|k| k % 4).unwrap_or(3) {
+                    0 => data.sort_by(|a, b| key(*b).cmp(&key(*a))),
+                    1 => {
+                        let k = (0..data.len()).max_by(|&a, &b| key(data[a]).cmp(&key(data[b]))).unwrap();
+                        data.swap(0, k);
+                    }
+                    _ => {}
+                }
+            }
             if matches!(ty, Ty::I64 | Ty::U64 | Ty::Usize) && perm_keys.first().map(|k| k % 2 == 0).unwrap_or(true) {
                 // Linear on 64-bit integers is only quantified below 2^52 (the other half of the
                 // cases keeps the wide values and drops Linear)
@@ -378,11 +392,13 @@ pub fn run_c19(ctx: &Ctx) {
     enum_perms(ctx, t.pick(7, 8));
     ctx.run_proptest("order", t.pick(20_000, 700_000), order_strategy(t.pick(40, 200), t == Tier::Thorough), &check_order);
     // long lanes (lengths around powers of two and block sizes)
-    ctx.run_proptest("order-long", t.pick(400, 12_000), order_strategy_with(crate::gen::long_len(129, t.pick(3_000, 5_000)), t == Tier::Thorough), &check_order);
+    ctx.run_proptest("order-long", t.pick(400, 12_000), order_strategy_with(crate::gen::long_len(129, t.pick(3_000, 5_000)), t == Tier::Thorough, 14, true), &check_order);
+    // long request lists (64..200 quantiles in one bulk call) on lanes shorter / longer than the list
+    ctx.run_proptest("order-many-q", t.pick(1_000, 30_000), order_strategy_with((2usize..300).boxed(), t == Tier::Thorough, 200, true), &check_order);
 }
 
 pub fn replayers() -> Vec<(&'static str, ReplayFn)> {
-    vec![("order", |v| replay_with::<OrderCase>(v, &check_order)), ("order-long", |v| replay_with::<OrderCase>(v, &check_order))]
+    vec![("order", |v| replay_with::<OrderCase>(v, &check_order)), ("order-long", |v| replay_with::<OrderCase>(v, &check_order)), ("order-many-q", |v| replay_with::<OrderCase>(v, &check_order))]
 }
 
 #[allow(dead_code)]
